@@ -6,6 +6,7 @@ package main
 // side of the harness), base64 is an uninterpreted inverse pair.
 
 import (
+	"encoding/base64"
 	"fmt"
 	"go/types"
 
@@ -50,6 +51,15 @@ func (e *Exec) fillRandom(v Value, tag string) {
 	}
 	e.freshCtr++
 	r := mkVar(fmt.Sprintf("%s!%d!L%d", sanitize(tag), e.freshCtr, sl.n), SStr)
+	// crypto/rand contract: fresh values (distinct from every earlier one of this size)
+	if sl.n >= 16 {
+		k := fmt.Sprintf("randvals:%d", sl.n)
+		prev, _ := e.hidden[k].([]*Term)
+		for _, p := range prev {
+			e.assume(mkNot(mkEq(r, p)))
+		}
+		e.hidden[k] = append(prev, r)
+	}
 	arr := sl.arr.val.(*ArrayVal)
 	es := make([]Value, len(arr.elems))
 	copy(es, arr.elems)
@@ -162,14 +172,36 @@ func (w *World) registerCryptoIntrinsics() {
 	}
 
 	// base64
+	nativeEnc := func(kind string) *base64.Encoding {
+		switch kind {
+		case "url":
+			return base64.URLEncoding
+		case "rawurl":
+			return base64.RawURLEncoding
+		case "std":
+			return base64.StdEncoding
+		}
+		return base64.RawStdEncoding
+	}
 	enc := func(e *Exec, fn *ssa.Function, a []Value) Value {
 		kind := e.b64Kind(a[0])
-		return mkUF(b64Name(kind, true), SStr, e.bytesTerm(a[1]))
+		bt := e.bytesTerm(a[1])
+		if s, ok := bt.strVal(); ok {
+			return mkStr(nativeEnc(kind).EncodeToString([]byte(s)))
+		}
+		return mkUF(b64Name(kind, true), SStr, bt)
 	}
 	I["(*encoding/base64.Encoding).EncodeToString"] = enc
 	dec := func(e *Exec, fn *ssa.Function, a []Value) Value {
 		kind := e.b64Kind(a[0])
 		s := a[1].(*Term)
+		if sv, ok := s.strVal(); ok {
+			out, err := nativeEnc(kind).DecodeString(sv)
+			if err != nil {
+				return tuple(&BytesVal{s: mkStr(string(out))}, e.newError("illegal base64 data"))
+			}
+			return tuple(&BytesVal{s: mkStr(string(out))}, nilIface)
+		}
 		if s.op == "uf:"+b64Name(kind, true) {
 			return tuple(&BytesVal{s: s.args[0]}, nilIface)
 		}
@@ -359,4 +391,110 @@ func cipherMethod(ov *OpaqueVal, name string) opaqueMethodFn {
 		}
 	}
 	return nil
+}
+
+// ---- msgpack / session encoding / CFB as ideal inverse pairs (enabled per harness: "ideal") ----
+
+func (e *Exec) structFieldsByName(p *Pointer) (map[string]*Pointer, []string) {
+	t := p.obj.typ
+	for _, i := range p.path {
+		switch u := under(t).(type) {
+		case *types.Struct:
+			t = u.Field(i).Type()
+		case *types.Array:
+			t = u.Elem()
+		}
+	}
+	st := under(t).(*types.Struct)
+	m := map[string]*Pointer{}
+	var names []string
+	for i := 0; i < st.NumFields(); i++ {
+		m[st.Field(i).Name()] = p.sub(i)
+		names = append(names, st.Field(i).Name())
+	}
+	return m, names
+}
+
+func (w *World) registerPackIntrinsics() {
+	I := w.intrinsics
+	mp := "github.com/vmihailenco/msgpack/v5"
+	// the CSRF struct: (OAuthState, OIDCNonce, CodeVerifier)
+	packCSRF := func(e *Exec, p *Pointer) *Term {
+		f, _ := e.structFieldsByName(p)
+		return mkUF("pack", SStr, e.bytesTermOrEmpty(e.load(f["OAuthState"])), e.bytesTermOrEmpty(e.load(f["OIDCNonce"])), e.load(f["CodeVerifier"]).(*Term))
+	}
+	I[mp+".Marshal"] = func(e *Exec, fn *ssa.Function, a []Value) Value {
+		iv := a[0].(*IfaceVal)
+		p, ok := iv.val.(*Pointer)
+		if !ok || isNilPtr(p) {
+			e.unsupported("msgpack.Marshal of %T", iv.val)
+		}
+		f, _ := e.structFieldsByName(p)
+		if _, isCSRF := f["OAuthState"]; isCSRF {
+			return tuple(&BytesVal{s: packCSRF(e, p)}, nilIface)
+		}
+		e.unsupported("msgpack.Marshal of this type is not modelled")
+		return nil
+	}
+	I[mp+".Unmarshal"] = func(e *Exec, fn *ssa.Function, a []Value) Value {
+		data := e.bytesTerm(a[0])
+		iv := a[1].(*IfaceVal)
+		p, ok := iv.val.(*Pointer)
+		if !ok || isNilPtr(p) {
+			e.unsupported("msgpack.Unmarshal into %T", iv.val)
+		}
+		f, _ := e.structFieldsByName(p)
+		if _, isCSRF := f["OAuthState"]; !isCSRF {
+			e.unsupported("msgpack.Unmarshal into this type is not modelled")
+		}
+		var parts [3]*Term
+		if data.op == "uf:pack" {
+			parts = [3]*Term{data.args[0], data.args[1], data.args[2]}
+		} else {
+			// arbitrary bytes: may fail; if it decodes the fields are arbitrary
+			if !e.branch(mkUF("unpack_ok", SBool, data)) {
+				return e.newError("msgpack: invalid data")
+			}
+			parts = [3]*Term{mkUF("unpack_0", SStr, data), mkUF("unpack_1", SStr, data), mkUF("unpack_2", SStr, data)}
+		}
+		e.store(f["OAuthState"], &BytesVal{s: parts[0]})
+		e.store(f["OIDCNonce"], &BytesVal{s: parts[1]})
+		e.store(f["CodeVerifier"], parts[2])
+		return nilIface
+	}
+}
+
+func (e *Exec) bytesTermOrEmpty(v Value) *Term {
+	if sl, ok := v.(*SliceVal); ok && sl.isNil {
+		return mkStr("")
+	}
+	return e.bytesTerm(v)
+}
+
+// idealCFB: harness-enabled replacement of (*cfbCipher).Encrypt/Decrypt by an
+// ideal (malleable, unauthenticated) cipher: Decrypt(Encrypt(x)) = x, any
+// other input of sufficient length decrypts to arbitrary bytes.
+func (e *Exec) idealCFB(fn *ssa.Function, args []Value) (Value, bool) {
+	name := fn.String()
+	enc := "(*" + repoModule + "/pkg/encryption.cfbCipher).Encrypt"
+	dec := "(*" + repoModule + "/pkg/encryption.cfbCipher).Decrypt"
+	if name != enc && name != dec {
+		return nil, false
+	}
+	recv := args[0].(*Pointer)
+	blk := e.load(recv.sub(0)).(*IfaceVal)
+	key := blk.val.(*OpaqueVal).data.(*Term)
+	if name == enc {
+		e.freshCtr++
+		iv := mkVar(fmt.Sprintf("iv!%d!L16", e.freshCtr), SStr)
+		return tuple(&BytesVal{s: mkConcat(iv, mkUF("CFBenc", SStr, key, iv, e.bytesTerm(args[1])))}, nilIface), true
+	}
+	ct := e.bytesTerm(args[1])
+	if !e.branch(mkGe(mkLen(ct), mkInt(16))) {
+		return tuple(&SliceVal{isNil: true}, e.newError("encrypted value should be at least 16 bytes")), true
+	}
+	if ct.op == "str.++" && len(ct.args) == 2 && ct.args[1].op == "uf:CFBenc" && sameTerm(ct.args[1].args[0], key) && sameTerm(ct.args[1].args[1], ct.args[0]) {
+		return tuple(&BytesVal{s: ct.args[1].args[2]}, nilIface), true
+	}
+	return tuple(&BytesVal{s: mkUF("CFBdec", SStr, key, ct)}, nilIface), true
 }
